@@ -1035,6 +1035,13 @@ def _check_test(m: Model) -> None:
         nl = norm(lt)
         ht = r.final.get('self.highest_test')
         above = r.conds.get(Atom('cmp', ('lt', 'self.highest_test', nl)))
+        if above is None and isinstance(lt, ast.IfExp):      # the comparison was decided on the branch the row takes (conditional lifted out of the atom)
+            for br in (lt.body, lt.orelse):
+                if above is None:
+                    above = r.conds.get(Atom('cmp', ('lt', 'self.highest_test', norm(br))))
+        if above is None and ht is not None and not (isinstance(ht, ast.Call) and norm(ht.func) == 'max') \
+                and any('self.highest_test' in ' '.join(str(x) for x in a.args) for a in r.conds):
+            raise Undecided(f'{tab.name}: highest_test is updated under a condition the table does not relate to the new number')
         ok_h = (ht is not None and isinstance(ht, ast.Call) and norm(ht.func) == 'max' and sorted(norm(x) for x in ht.args) == sorted(('self.highest_test', nl))
                 and not ht.keywords) or (above is True and ht is not None and norm(ht) == nl) or (above is False and ht is None)
         if not ok_h:
@@ -1093,6 +1100,7 @@ def _check_retention(m: Model, tab: tables.Table, sec: Section) -> None:
         if lt is None or _new_last(f, lt) is None:
             return                      # the shape of the new number is not understood here (reported / undecided elsewhere)
         nl = norm(lt)
+        nls = {nl} | ({norm(lt.body), norm(lt.orelse)} if isinstance(lt, ast.IfExp) else set())    # a comparison may be decided per branch
         nrows += 1
         explicit = [norm(x) for x in ast.walk(lt) if _is_int_of(f, x, 'test')]
         if not explicit:
@@ -1104,9 +1112,9 @@ def _check_retention(m: Model, tab: tables.Table, sec: Section) -> None:
         for a in r.conds:
             t = ' '.join(str(x) for x in a.args)
             if nl in t or any(x in t for x in explicit):
-                if a.kind == 'cmp' and a.args[0] == 'lt' and a.args[1] == 'self.plan.num_tests' and a.args[2] == nl:
+                if a.kind == 'cmp' and a.args[0] == 'lt' and a.args[1] == 'self.plan.num_tests' and a.args[2] in nls:
                     uses['compared with plan.num_tests'] = sec.node
-                elif a.kind == 'cmp' and a.args[0] == 'lt' and a.args[1] == 'self.highest_test' and a.args[2] == nl:
+                elif a.kind == 'cmp' and a.args[0] == 'lt' and a.args[1] == 'self.highest_test' and a.args[2] in nls:
                     uses['running maximum'] = sec.node
                 elif _truthy(a) is not None and f.role_ref(_truthy(a)[0], 'test', 'digits'):   # type: ignore[index]
                     pass                # is there an explicit number at all
